@@ -908,6 +908,19 @@ func c17History(seed uint64, idx int, big bool) (res c17Hist, err error) {
 	return res, nil
 }
 
+// c17Unexpected classifies the error of a request the harness makes around the recorded part of a history (0: not one of them)
+func c17Unexpected(msg string) int {
+	for _, p := range []struct {
+		sub  string
+		what int
+	}{{"CreateCollection:", 1}, {"GetCollection:", 2}, {"InsertPoints:", 3}, {"SearchPoints:", 4}, {"DeleteCollection:", 5}, {"GetShardsInfo:", 6}, {"reading shard", 7}, {"direct shard search", 7}} {
+		if strings.Contains(msg, p.sub) {
+			return p.what
+		}
+	}
+	return 0
+}
+
 // c17PreviousLife: create / fill / search through every node / delete, under the name the history is about to use
 func c17PreviousLife(cl *c17Cluster, h *c17Run, plan models.UserPlan, npoints int) error {
 	g := h.g
@@ -1058,7 +1071,14 @@ func runC17(rc *runCtx) error {
 	wg.Wait()
 	for j, e := range errs {
 		if e != nil {
-			return fmt.Errorf("history %d: %w", jobs[j].idx, e)
+			// a request of the scaffolding failed on a cluster whose servers are all up: that is an observation
+			// (through some node the collection or a shard cannot be reached), not a failure of the harness
+			what := c17Unexpected(e.Error())
+			if what == 0 {
+				return fmt.Errorf("history %d: %w", jobs[j].idx, e)
+			}
+			results[j] = c17Hist{term: fmt.Sprintf("CUnexpected %d", what), kinds: []string{"scaffolding request failed"},
+				samples: []any{map[string]any{"kind": "scaffolding request failed", "history": jobs[j].idx, "servers": 1 + jobs[j].idx%3, "error": e.Error()}}}
 		}
 	}
 	files := make([]*caseFile, nfiles)
